@@ -1,1 +1,40 @@
-From SF Require Import Base.Prelude Unsized.Types Unsized.Parse Unsized.Machine Unsized.Ops.
+(* C02 - Stored bytes are always the canonical serialization, with exact length.  Statements only.
+   FULL statement: in every reachable state of every history on every shape, firstn len mem = encode value and
+   len = byte_size value.  PROVED: for flat shapes (see C01.v for the fragment) as an invariant of all histories;
+   for ALL shapes: canonical encodings are unique (any other reader sees the same value) and their size is
+   the announced one.  Lists of unsized elements (offset table, unsized_size, trailing length copy) are tied by
+   the correspondence check, which compares the account bytes with from_owned(value) after every step. *)
+From SF Require Import Base.Prelude Gen.Generated Unsized.Types Unsized.Parse Unsized.Machine Unsized.Ops.
+From SF Require Import Unsized.Proofs.EncodeParse Unsized.Proofs.Flat.
+
+Theorem C02_flat_canonical_after_any_history :
+  forall ts h vs s top vs',
+    Rep ts vs s top -> m_refuse s <> 1 -> orun (m_cap s) ts vs h = Some vs' ->
+    exists s' top', mrun ts s top h = Ok (s', top') /\
+      ztake (m_len s') (m_mem s') = encode (TStruct ts) (VStruct vs') /\
+      m_len s' = byte_size (TStruct ts) (VStruct vs').
+Proof.
+  intros ts h vs s top vs' R Hn Ho.
+  destruct (flat_run_refines ts h vs s top vs' R Hn Ho) as (s' & Hrun & R').
+  exists s', (PStruct (lay ts vs' 0)). split; [exact Hrun|].
+  destruct (rep_observable true ts vs' s' _ R') as (_ & Hb & Hl & _). auto.
+Qed.
+
+Theorem C02_encode_size : forall t v, wf t v = true -> zlen (encode t v) = byte_size t v.
+Proof. exact encode_size. Qed.
+
+Theorem C02_encode_injective :
+  forall t v v', ty_ok true t = true -> wf t v = true -> wf t v' = true -> encode t v = encode t v' -> v = v'.
+Proof. exact encode_injective. Qed.
+
+(* what any other reader of the raw account sees is the value *)
+Theorem C02_any_reader_sees_the_value :
+  forall ovf t v, ty_ok true t = true -> wf t v = true -> parse ovf t (encode t v) = Ok (v, byte_size t v).
+Proof. exact parse_encode. Qed.
+
+(* the header of a list of unsized elements is exactly: unsized size, length, gap-free ascending offsets from 0,
+   trailing copy of the length (stated on the encoder, which the correspondence ties to the account bytes) *)
+Example C02_ulist_header_exact :
+  encode (TUList (TList (FAny 1) 1) 0) (VUList [([], VList [[7]; [8]]); ([], VList []); ([], VList [[9]])])
+  = [6;0;0;0] ++ [3;0;0;0] ++ ([0;0;0;0] ++ [3;0;0;0] ++ [4;0;0;0]) ++ [3;0;0;0] ++ ([2;7;8] ++ [0] ++ [1;9]).
+Proof. vm_compute. reflexivity. Qed.
